@@ -1,5 +1,5 @@
 // Package c09 decides property C09 (sampling decisions are consistent and
-// traces stay connected) with three generated checks:
+// traces stay connected) with these generated checks:
 //
 //   - sampler_algebra: laws of sdktrace.TraceIDRatioBased called directly
 //     through ShouldSample (determinism, monotonicity in the ratio, the two
@@ -8,7 +8,14 @@
 //     drawn from a grammar and wrapped in recording decorators; every started
 //     span is compared with what the sampler answered for it;
 //   - concurrent: 8 goroutines starting / ending spans on one provider with
-//     the default ID generator (unique valid IDs, connected traces, -race).
+//     the default ID generator (unique valid IDs, connected traces, -race),
+//     behind a simple or a (blocking / non-blocking) batch processor;
+//   - delivery (delivery_test.go): "reaches exporters exactly when sampled"
+//     for 1..3 processors of every stock kind at once and for every trigger
+//     of the hand-over (the batch processor's own schedule after idle
+//     periods, a full batch, ForceFlush, Shutdown), with slow and failing
+//     exporters;
+//   - multi_provider_ids: IDs are unique across providers of one process.
 //
 // Readings of the statement where it is ambiguous (all conservative):
 //
@@ -35,6 +42,11 @@
 //     evaluation (about 8.9 sigma at r = 0.5, relatively wider where the
 //     binomial is Poisson-like and "6 sigma" would be exceeded by chance once
 //     in ~1e6 cases). The threshold is never re-implemented.
+//   - "it reaches exporters exactly when sampled" holds for every started
+//     span whatever its caller does with it between Start and End and
+//     whatever timestamps the caller claims (explicit start / end times,
+//     end == start, end before start): nothing but the sampler's answer and
+//     End decide. The pipeline check generates both.
 //   - The sampler must be called exactly once per Start, with the new span's
 //     trace ID and the parent span context (zero for WithNewRoot): without
 //     that "the sampler's answer for the span" is not defined.
